@@ -278,6 +278,14 @@ def signal_derivative_chain(d, N, kind):
         cur, coeff, deg = nxt, want, deg - 1
 
 
+def derivative_chain_sequence(d, N, order):
+    """the derivative-chain contract for several knot vectors of the SAME size and degree one after the other in ONE
+    process (stages on different grids, OCPs transcribed one after another): the result for a grid does not depend on
+    the grids differentiated before"""
+    for kind in order:
+        signal_derivative_chain(d, N, kind)
+
+
 def native_spline_method():
     """the SplineMethod clauses (replay/spline_method_native.py): spline_method.py is out of the symbolic engine's reach, so
     it is exercised on the real CasADi (networkx taken from the tooling venv) -- a bounded native stand-in"""
@@ -315,6 +323,17 @@ def nx_path(VERIF):
 _tasks1 = tasks
 
 
+def sequence_tasks(tier, prop):
+    out = []
+    for d in (1, 2, 3):
+        for N in (3,):
+            for order in (("uniform", "geometric"), ("geometric", "uniform")):
+                inst = "%s/derivative-chain-in-sequence[d=%d,N=%d,%s]" % (prop, d, N, " then ".join(order))
+                out.append(Task(inst, guarded(lambda d=d, N=N, order=order: derivative_chain_sequence(d, N, order), inst), kind="bounded", bound=dict(order=d, N=N, knot_vectors_in_one_process=list(order), T="symbolic"),
+                                replay=dict(harness="task_probe", module="contracts.%s" % prop.lower(), task=inst, tier=tier)))
+    return out
+
+
 def tasks(tier):
     out = _tasks1(tier)
     out.append(Task("C17/SplineMethod-native", native_spline_method, kind="enumerated", replay=dict(harness="spline_method_probe"),
@@ -324,6 +343,7 @@ def tasks(tier):
             inst = "C17/derivative-chain[d=%d,N=%d,%s]" % (d, N, kname)
             out.append(Task(inst, guarded(lambda d=d, N=N, kname=kname: signal_derivative_chain(d, N, kname), inst), kind="bounded", bound=dict(order=d, N=N, knots=kname, T="symbolic"),
                             replay=dict(harness="task_probe", module="contracts.c17", task=inst, tier=tier)))
+    out += sequence_tasks(tier, "C17")
     for kind in ("variable", "parameter"):
         for m in ("MS", "SS"):
             inst = "C17/signal-in-dynamics[%s,%s]" % (kind, m)
